@@ -83,7 +83,10 @@ NOTES = {
     'C16_4': 'caught after read_enum<iarf_e> was brought under contract (C16-K6); the first "caught" verdict was an artefact of the unrepaired std::stoi defect',
     'C17_3': 'undecided: the change uses a range-for over an initializer list, which the C++ front end of CBMC rejects (the slice no longer compiles); reported as exit 2, never as held',
     'C12_4': 'undecided: the changed loop no longer matches desugaring rule D1 and uses std::string construction from iterators, outside the front end',
-    'C06_3': 'not in any kernel (parse_cr_string); C06 covers progress only for the leaf tokenizers listed in 9.3',
+    'C06_3': 'missed when first run; caught after parse_cr_string was brought under contract (C06-K9: the delimiter loop no longer decreases its variant)',
+    'C04_1': 'missed in round 1; caught after paren_multiline_before_brace was brought under contract (C04-K5)',
+    'C20_4': 'missed when first run; caught after newlines_remove_disallowed was brought under contract (C20-K6)',
+    'C07_4': 'missed when first run; caught after the IARF newline switch and newlines_remove_newlines were brought under contract (C07-K9)',
 }
 
 
